@@ -202,6 +202,8 @@ def eval_compu(case, res: core.ShardResult | None = None) -> list:
         except Exception:
             continue
         cls = {"compu-clause", "cat:" + ir["cat"] if "cat" in ir else "compu"}
+        if v < 0:
+            cls.add("compu-negative-internal:" + str(ir.get("cat")))
         c2 = {"stage": "compu", "cm": ir, "iv": v}
         with mh.quiet_warnings():
             try:
@@ -253,7 +255,7 @@ def run_shard(spec, seed, tier):
                 else:
                     out.append(f)
             return out
-        n = 150 if tier == "quick" else 3000
+        n = (400 if spec[1] in ("RAT-FUNC", "SCALE-RAT-FUNC") else 150) if tier == "quick" else 3000
         found = core.hyp_search(strat, cbody, seed, n, shrink_budget_s=30)
         if found:
             res.failures.extend(found)
